@@ -17,6 +17,8 @@ Definition hmacB_sha224 := hmacB _ sha224_init sha256_update sha224_finish 64.
 Definition hmacB_sha256 := hmacB _ sha256_init sha256_update sha256_finish 64.
 Definition hmacB_sha384 := hmacB _ sha384_init sha512_update sha384_finish 128.
 Definition hmacB_sha512 := hmacB _ sha512_init sha512_update sha512_finish 128.
+Definition hmacB_sha512_224 := hmacB _ sha512_224_init sha512_update sha512_224_finish 128.
+Definition hmacB_sha512_256 := hmacB _ sha512_256_init sha512_update sha512_256_finish 128.
 
 (* KDFs *)
 Definition sm3_kdf_stream := kdf_stream sm3_ctx sm3_init sm3_update sm3_finish 32.
